@@ -256,6 +256,8 @@ pub struct World {
     pub up_plans: Vec<Plan>,
     pub epoch: u32,
     pub active: bool,
+    /// 0 collection, 1 merge, 2 adapter, 3 join_all, 4 try_join_all
+    pub class: u8,
 }
 
 impl World {
@@ -310,6 +312,7 @@ impl World {
             up_plans: Vec::new(),
             epoch: 0,
             active: false,
+            class: 0,
         }
     }
 
